@@ -197,7 +197,20 @@ def check(run):
     run.analysed_fn(vq)
     _, dfn = prog.func(DISPATCH)
     vm = ("param", dfn.args.args[0].arg)
-    tries = [ev for ev, _ in walk(v.events, structural=True) if isinstance(ev, ir.Try)]
+    # a callable that is not a river metric is never rejected
+    from .boolalg import holds
+    ism = ("fn", "isinstance", (vm, ("global", "river.metrics.base.Metric")))
+    for ev, ctx in walk(v.events):
+        if isinstance(ev, ir.Raise) and not holds(tuple(ctx.guards), ism) and not [h for t, h in ctx.tries if h != "body"]:
+            gtxt = " & ".join(ir.show_nl(g)[:60] for g in ctx.guards) or "always"
+            run.fail("AGREE", "dispatch.reject", f"{v.path}:{ev.line}", "validate_loss_function",
+                     f"raises under [{gtxt}]",
+                     f"any callable that is not a river metric must be accepted and returned unchanged; the validator raises "
+                     f"under [{gtxt}] (a loss with an optional third parameter, a functools.partial or a callable object "
+                     f"is rejected although it can be called as loss(y_true, y_pred))")
+            break
+    tries = [ev for ev, _ in walk(v.events, structural=True) if isinstance(ev, ir.Try) and
+             any(isinstance(e, (ir.Call, ir.Mut)) and getattr(e, "method", None) in ("update", "revert") for e, _ in walk(ev.body))]
     run.need(len(tries) == 1, "validator no longer probes inside one try")
     arms = [("scalar", tries[0].body)] + [("handler:" + "/".join(h.exc), h.body) for h in tries[0].handlers]
     n_arms = 0
